@@ -24,6 +24,7 @@ def lift_factories(facts):
     fn = facts.funcs.get('transform_compressible')
     if fn is None:
         raise AnalysisError('anchor vanished: transform_compressible')
+    del RAW_COMPARES[:]
     out = {}
     for st in fn.body:
         if not isinstance(st, ast.FunctionDef):
@@ -48,6 +49,18 @@ def lift_factories(facts):
 def to_formula(v, iparams, cparams, facts, fname):
     i, p, e = [('name', x) for x in iparams]
     k = v[0]
+    if k == 'cmp' and v[1] in ('in', 'not in') and v[3][0] == 'call' and v[3][1] == 'range' and len(v[3][2]) in (1, 2):
+        # x in range(a, b)  ==  a <= x and x < b
+        x = to_term(v[2], iparams_t(iparams)[0], iparams_t(iparams)[1], iparams_t(iparams)[2], cparams, facts, fname)
+        args = [to_term(a, iparams_t(iparams)[0], iparams_t(iparams)[1], iparams_t(iparams)[2], cparams, facts, fname) for a in v[3][2]]
+        lo, hi = (('const', 0), args[0]) if len(args) == 1 else (args[0], args[1])
+        f = ('and', [('cmp', '>=', x, lo), ('cmp', '<', x, hi)])
+        return f if v[1] == 'in' else ('not', f)
+    if k == 'cmp' and v[1] in ('in', 'not in') and v[3][0] in ('list', 'tuple', 'set'):
+        x = to_term(v[2], iparams_t(iparams)[0], iparams_t(iparams)[1], iparams_t(iparams)[2], cparams, facts, fname)
+        alts = [('cmp', '==', x, to_term(a, iparams_t(iparams)[0], iparams_t(iparams)[1], iparams_t(iparams)[2], cparams, facts, fname)) for a in v[3][1]]
+        f = ('or', alts)
+        return f if v[1] == 'in' else ('not', f)
     if k == 'cmp':
         return ('cmp', v[1], to_term(v[2], i, p, e, cparams, facts, fname), to_term(v[3], i, p, e, cparams, facts, fname))
     if k == 'bool':
@@ -55,6 +68,13 @@ def to_formula(v, iparams, cparams, facts, fname):
     if k == 'un' and v[1] == 'not':
         return ('not', to_formula(v[2], iparams, cparams, facts, fname))
     raise AnalysisError('predicate factory {}: result {} is not a comparison'.format(fname, show(v)))
+
+
+def iparams_t(iparams):
+    return [('name', x) for x in iparams]
+
+
+RAW_COMPARES = []
 
 
 def to_term(v, i, p, e, cparams, facts, fname):
@@ -71,6 +91,14 @@ def to_term(v, i, p, e, cparams, facts, fname):
             return ('REG', ('param', f[1]) if f[0] == 'name' else ('const', f[1]))
         if inner[0] == 'attr' and inner[1] == i:
             return ('REG', ('const', inner[2]))
+    if v[0] == 'call' and v[1] == 'getattr' and len(v[2]) == 2 and v[2][0] == i:
+        # a register-kinded field compared as written (not normalised through lookup_register)
+        f = v[2][1]
+        RAW_COMPARES.append((fname, f[1]))
+        return ('REG', ('param', f[1]) if f[0] == 'name' else ('const', f[1]))
+    if v[0] == 'attr' and v[1] == i and v[2] in ('rd', 'rs1', 'rs2', 'rd_rs1'):
+        RAW_COMPARES.append((fname, v[2]))
+        return ('REG', ('const', v[2]))
     if v[0] == 'mcall' and v[2] == 'eval' and v[1] == ('attr', i, 'imm'):
         return ('IMM',)
     if v[0] == 'call' and v[1] in facts.funcs and len(v[2]) >= 2 and v[2][0] == i and v[2][1] == p:
@@ -209,6 +237,7 @@ class CompRel:
     def __init__(self, facts):
         self.facts = facts
         self.factories = lift_factories(facts)
+        self.raw_compares = sorted(set(RAW_COMPARES))
         self.pa = LR.pass_analysis(facts, 'transform_compressible')
         self.rules = []
         self.constructions = {}
